@@ -4,6 +4,7 @@
 #include <cstdlib>
 #include <fcntl.h>
 #include <unistd.h>
+#include <sys/mman.h>
 
 namespace vf {
 
@@ -36,8 +37,16 @@ bool isKnown(const std::string &key) {
 }
 int tier() { const char *e = getenv("VERIF_TIER"); return (e && !strcmp(e, "thorough")) ? 1 : 0; }
 
-static int g_curFd = -1;
-void setCurFile(const char *path) { g_curFd = open(path, O_CREAT | O_RDWR | O_TRUNC, 0644); }
+// "current case" file: a shared mapping, so that a sanitizer abort leaves the input behind without a
+// system call per case. Layout: "VCUR" kind(1) pad(3) len(8) data...
+static int g_curFd = -1; static uint8_t *g_curMap = nullptr; static const size_t kCurCap = (1u << 20);
+void setCurFile(const char *path) {
+    g_curFd = open(path, O_CREAT | O_RDWR | O_TRUNC, 0644);
+    if (g_curFd >= 0 && ftruncate(g_curFd, (off_t)(kCurCap + 16)) == 0) {
+        void *m = mmap(nullptr, kCurCap + 16, PROT_READ | PROT_WRITE, MAP_SHARED, g_curFd, 0);
+        if (m != MAP_FAILED) g_curMap = (uint8_t *)m;
+    }
+}
 
 static const size_t kMaxSamples = 8;
 
@@ -60,9 +69,9 @@ bool account(Case &c, const uint8_t *choice, size_t n) {
 }
 
 bool runOne(char kind, const uint8_t *d, size_t n, Case &out) {
-    if (g_curFd >= 0) {
-        char hdr[64]; int hl = snprintf(hdr, sizeof hdr, "VERIF-REPLAY %s %c\n", harness_id(), kind);
-        if (ftruncate(g_curFd, 0) == 0) { (void)!pwrite(g_curFd, hdr, hl, 0); (void)!pwrite(g_curFd, d, n, hl); }
+    if (g_curMap) {
+        size_t m = n > kCurCap ? kCurCap : n; uint64_t len = m;
+        memcpy(g_curMap, "VCUR", 4); g_curMap[4] = (uint8_t)kind; memcpy(g_curMap + 8, &len, 8); if (m) memcpy(g_curMap + 16, d, m);
     }
     if (kind == 'e') harness_exh_case(d, n, out);
     else { Dec dec(d, n); harness_case(dec, out); }
